@@ -338,6 +338,24 @@ func (fv *FV) verifyFunc(c *Contract, d *declInfo) {
 	if d.decl.Body == nil {
 		fv.unsupported("no body")
 	}
+	fv.loopIndex = map[ast.Stmt]int{}
+	nloops := 0
+	ast.Inspect(d.decl.Body, func(n ast.Node) bool {
+		switch l := n.(type) {
+		case *ast.ForStmt:
+			nloops++
+			fv.loopIndex[l] = nloops
+		case *ast.RangeStmt:
+			nloops++
+			fv.loopIndex[l] = nloops
+		}
+		return true
+	})
+	for _, lc := range c.Loops {
+		if lc.Loop > nloops {
+			fv.unsupported("contract refers to loop %d but the function has %d loops", lc.Loop, nloops)
+		}
+	}
 	st := &State{pc: "true", vars: map[types.Object]Val{}, heap: map[string]Val{}}
 	ctx := &fnCtx{decl: d.decl, sig: sig, pkg: d.pkg, contract: c, top: true}
 	fv.fn = ctx
